@@ -18,13 +18,20 @@ static const uint32_t NORETRY = 1u << 31; // flag in Op::mapfail: a failed reque
 static const int NBULK = 6144; // extra slots used by the bulk op (fills whole slabs)
 
 static int P_maps, P_unmaps, P_slab_first, P_slab_additional, P_large, P_realloc_inplace, P_realloc_moved, P_realloc_map, P_xfree, P_handover, P_take_fail, P_contended_construct, P_remote_free_into_head,
-	P_relink_full, P_mapfail_injected, P_mapfail_while_other_holds, P_skipped, P_poison_redundant, P_unpoison_redundant, P_churn_iters, P_arena_exhausted, P_lock_contention, P_recovered, P_pages_sampled, P_unaligned_slack, P_bulk_blocks, P_slab_filled, P_long_churn, P_granule_runs, P_burst_fail, P_multi_pages_checked, P_reuse_checked;
+	P_relink_full, P_mapfail_injected, P_mapfail_while_other_holds, P_skipped, P_poison_redundant, P_unpoison_redundant, P_churn_iters, P_arena_exhausted, P_lock_contention, P_recovered, P_pages_sampled, P_unaligned_slack, P_bulk_blocks, P_slab_filled, P_long_churn, P_granule_runs, P_burst_fail, P_multi_pages_checked, P_reuse_checked, P_huge_maps, P_huge_blocks, P_huge_realloc_grow, P_huge_realloc_clamped;
 
 struct Region { uint64_t base, len; int kind; /*0 slab,1 large*/ int64_t pages; int by_task, by_op; uint64_t cls; bool counted; int64_t live = 0; int last_free_task = 0; uint64_t last_free_step = 0; };
 struct Block { char *ptr = nullptr; size_t req = 0, reported = 0; uint64_t pat = 0; int owner = 0; int alloc_task = 0; bool live = false, offered = false, inflight = false, busy = false; VC chan; };
 
 struct SlabEngine;
 static SlabEngine *G;
+
+// Requests of 2^31 bytes and more ("huge"): C02/C03 quantify over all sizes, and 32-bit truncation of a length is the
+// realistic mistake there. Such mappings are served from a 40 GiB tail of reserved (PROT_NONE, never committed)
+// address space directly behind the arena, so that offsets stay linear; only the pages the pool's frame header and the
+// owner's fill windows touch are made accessible. Accesses there are outside the race detector's shadow.
+static const uint64_t HUGE_MIN = 1ull << 30, TAIL_SIZE = 40ull << 30;
+static inline bool in_tail(const void *p) { uint64_t o = off(p); return o >= arena_size && o < arena_size + TAIL_SIZE; }
 
 static inline uint8_t patbyte(uint64_t pat, size_t i) { return (uint8_t)((pat >> ((i & 7) * 8)) ^ (i * 131) ^ (i >> 8)); }
 
@@ -37,6 +44,8 @@ struct SlabEngine : Engine {
 	std::vector<Block> blk = std::vector<Block>(NH + NBULK);
 	std::map<uint64_t, int> live_by_addr; // offset of ptr -> handle
 	uint64_t policy_base = 0, policy_top = 0;
+	bool tail_ok = false, tail_dirty = false; uint64_t tail_top = 0;
+	std::map<uint64_t, uint64_t> tail_unpoisoned; // poison state of tail memory: disjoint [start, end) intervals that are unpoisoned
 	std::string profile; bool single = true, faultfree = true;
 	size_t max_small = 0;
 	// per task, current op bookkeeping
@@ -63,6 +72,7 @@ struct SlabEngine : Engine {
 		P_mapfail_while_other_holds = probe_id("map_failure_while_other_task_holds_a_pool_lock"); P_skipped = probe_id("ops_skipped_precondition"); P_poison_redundant = probe_id("kasan_strict:poison_of_poisoned_byte");
 		P_unpoison_redundant = probe_id("kasan_strict:unpoison_of_unpoisoned_byte"); P_churn_iters = probe_id("churn_iterations"); P_arena_exhausted = probe_id("arena_exhausted"); P_lock_contention = probe_id("alloc_or_free_overlapping_another_task's");
 		P_recovered = probe_id("retry_after_map_failure_succeeded"); P_pages_sampled = probe_id("used_pages_sampled"); P_unaligned_slack = probe_id("unaligned_map_nonzero_residue"); P_bulk_blocks = probe_id("bulk_blocks_allocated"); P_slab_filled = probe_id("slab_filled_completely(second_slab_of_class_mapped_in_bulk)"); P_long_churn = probe_id("long_churn_over_65536_allocations"); P_granule_runs = probe_id("runs_with_8_byte_granule_poison_shadow"); P_burst_fail = probe_id("map_failure_inside_a_burst_of_consecutive_failures"); P_multi_pages_checked = probe_id("used_pages_checked_against_measured_slab_sizes_at_end"); P_reuse_checked = probe_id("end_of_run_reuse_test(all_slab_capacity_refilled_without_map)");
+		P_huge_maps = probe_id("huge:map_of_1GiB_or_more(reserved_address_space)"); P_huge_blocks = probe_id("huge:block_of_2^31_bytes_or_more_live"); P_huge_realloc_grow = probe_id("huge:realloc_grew_a_block_to_2^31_bytes_or_more"); P_huge_realloc_clamped = probe_id("huge:realloc_of_a_huge_block_clamped_to_64_bytes");
 	}
 	const char *name() override { return "simslab"; }
 	const char *op_name(int k) override { return k >= 0 && k < OP_N ? op_names[k] : "?"; }
@@ -213,10 +223,63 @@ struct SlabEngine : Engine {
 			}
 			hbase += nh;
 		}
+		{ // requests of 2^31 bytes and more (C02/C03: all sizes), drawn from a separate stream so that the other plans of a seed are unchanged
+			Rng hr; hr.seed(p.seed ^ 0x48554745ull);
+			if (hr.chance(1, prof == "C05" ? 25 : 10)) {
+				std::vector<size_t> cand;
+				for (size_t i = 0; i < p.ops.size(); i++) if (p.ops[i].kind == OP_ALLOC || p.ops[i].kind == OP_REALLOC_NULL || p.ops[i].kind == OP_REALLOC) cand.push_back(i);
+				int k = 1 + (int)hr.below(2);
+				while (k-- && !cand.empty()) {
+					Op &o = p.ops[cand[hr.below(cand.size())]];
+					static const uint64_t bases[] = {1ull << 31, 1ull << 32, 1ull << 32, 1ull << 32, (1ull << 32) + (1ull << 31), 1ull << 33};
+					uint64_t b = bases[hr.below(6)]; int64_t d;
+					switch (hr.below(6)) { case 0: d = 0; break; case 1: d = -1; break; case 2: d = 1 + (int64_t)hr.below(200); break; case 3: d = -(int64_t)P.pagesize - (int64_t)hr.below(3); break; case 4: d = (int64_t)P.pagesize + (int64_t)hr.below(3) - 1; break; default: d = (int64_t)hr.below(3 * P.sb_size) - (int64_t)P.sb_size; break; }
+					o.a[1] = (int64_t)(b + (uint64_t)d);
+					if (o.mapfail && hr.chance(2, 3)) o.mapfail = 0;
+				}
+			}
+		}
 		if (mtx == MT_TICKET && rng.chance(1, 3)) p.knobs["age"] = (int64_t)((rng.chance(1, 2) ? 0xFFFFFFFFu : 0x7FFFFFFFu) - (uint32_t)rng.below(6)); // aged bucket locks: counters wrap during the run
 		if (rng.chance(1, 5)) p.knobs["reuse_check"] = 1; // end-of-run reuse test
 		if (P.poison && rng.chance(1, 2)) p.knobs["granule"] = 1; // KASAN-like policy: poison shadow with 8-byte granules
 		pick_strategy(rng, p, mtx != MT_SIM && prof == "C05");
+	}
+
+	// ------------------------------------------------------------ poison state (byte array for the arena, interval set for the tail)
+	void tail_sub(uint64_t o, uint64_t e) {
+		auto &m = tail_unpoisoned;
+		auto it = m.lower_bound(o);
+		if (it != m.begin()) { auto pv = std::prev(it); if (pv->second > o) { uint64_t pe = pv->second; pv->second = o; if (pe > e) { m[e] = pe; return; } } }
+		while (it != m.end() && it->first < e) { uint64_t pe = it->second; it = m.erase(it); if (pe > e) { m[e] = pe; break; } }
+	}
+	void tail_add(uint64_t o, uint64_t e) {
+		auto &m = tail_unpoisoned;
+		auto it = m.upper_bound(o);
+		if (it != m.begin()) { auto pv = std::prev(it); if (pv->second >= o) { o = pv->first; e = std::max(e, pv->second); it = m.erase(pv); } }
+		while (it != m.end() && it->first <= e) { e = std::max(e, it->second); it = m.erase(it); }
+		m[o] = e;
+	}
+	bool ps_any(uint64_t o, size_t n, int val) { // does [o, o+n) contain a byte in state val (1 poisoned, 0 unpoisoned)?
+		if (!n) return false;
+		if (o < arena_size) return memchr(pshadow + o, val, n) != nullptr;
+		auto &m = tail_unpoisoned; uint64_t e = o + n;
+		auto it = m.upper_bound(o);
+		if (it != m.begin()) { auto pv = std::prev(it); if (pv->second > o) return val == 0 ? true : pv->second < e; } // intervals are coalesced: beyond its end lies a poisoned byte
+		if (val == 1) return true; // o itself is poisoned
+		return it != m.end() && it->first < e;
+	}
+	void ps_set(uint64_t o, size_t n, int val) {
+		if (!n) return;
+		if (o < arena_size) { memset(pshadow + o, val, n); return; }
+		if (val) tail_sub(o, o + n); else tail_add(o, o + n);
+	}
+	bool in_policy(const void *p) { return (in_arena(p) && off(p) >= policy_base) || (tail_ok && in_tail(p)); }
+	// tail memory is reserved, not accessible: make the pages of [p, p+n) usable (no-op for arena addresses)
+	void ensure_rw(const void *p, size_t n) {
+		if (!n || !in_tail(p)) return;
+		uintptr_t a = (uintptr_t)p & ~(uintptr_t)4095, e = ((uintptr_t)p + n + 4095) & ~(uintptr_t)4095;
+		if (mprotect((void *)a, e - a, PROT_READ | PROT_WRITE)) { perror("mprotect tail"); exit(3); }
+		tail_dirty = true;
 	}
 
 	// ------------------------------------------------------------ policy
@@ -259,6 +322,28 @@ struct SlabEngine : Engine {
 			switch (h & 3) { case 0: want_res = 0; break; case 1: want_res = pg; break; case 2: want_res = ((h >> 8) % (pi.sb_size / pg)) * pg; break; default: want_res = pi.sb_size - pg; break; }
 		}
 		size_t a = align ? align : pg;
+		if (len >= HUGE_MIN) {
+			// reserved address space only: the head (frame header, first pages of the block) is made accessible and filled
+			uint64_t cand = (tail_top + a - 1) & ~(uint64_t)(a - 1);
+			if (!align) { cand = ((tail_top + pi.sb_size - 1) & ~(uint64_t)(pi.sb_size - 1)) + want_res; }
+			if (!tail_ok || cand + len > arena_size + TAIL_SIZE - (1 << 20)) { probe(P_arena_exhausted); c.failed_any = true; return 0; }
+			probe(P_huge_maps);
+			if (!align && want_res) { probe(P_unaligned_slack); count_fault(FK_PLACEMENT); }
+			tail_top = ((cand + len + 4095) & ~4095ull) + (1 << 16); // an inaccessible gap follows every huge region
+			Region r{cand, len, 1, 0, me, cur_opid(), 0, false};
+			regions.insert(std::upper_bound(regions.begin(), regions.end(), cand, [](uint64_t v, const Region &x) { return v < x.base; }), r);
+			c.maps_ok++; c.mapped_bases.push_back(cand);
+			char *p = arena + cand;
+			// (a copying realloc into the new block copies the old block's whole capacity: at most the generator's size cap, rounded)
+			size_t head = std::min<uint64_t>(len, 8 * (uint64_t)pi.sb_size + class_size(pi.num_buckets - 1) + 8 * pg + (1 << 16));
+			ensure_rw(p, head);
+			uint64_t g = fill_rng().next();
+			uint64_t fm = c.place ? splitmix(c.place, 999 + (uint64_t)j) & 7 : 2;
+			if (fm == 0) memset(p, 0, head); else if (fm == 1) memset(p, 0xFF, head);
+			else for (size_t i = 0; i + 8 <= head; i += 8) { uint64_t v = g ^ (i * 0x9e3779b97f4a7c15ull); memcpy(p + i, &v, 8); }
+			if (pi.poison) ps_set(cand, len, 1);
+			return (uintptr_t)p;
+		}
 		// placement mode (a per-op fault knob): lowest fitting address, or top-down (new regions BELOW the existing ones:
 		// the pool orders its slabs by address), or a hole further up (regions no longer adjacent); plus zero-filled
 		// instead of garbage-filled memory sometimes (code must not rely on either)
@@ -292,7 +377,7 @@ struct SlabEngine : Engine {
 			while (ri < regions.size() && regions[ri].base + regions[ri].len <= pos) ri++;
 			if (ri < regions.size() && regions[ri].base < pos) { pos = regions[ri].base + regions[ri].len; ri++; }
 			while (true) {
-				uint64_t gap_end = ri < regions.size() ? regions[ri].base : policy_top;
+				uint64_t gap_end = ri < regions.size() ? std::min(regions[ri].base, policy_top) : policy_top;
 				if (pos < gap_end) found = fit_low(pos, gap_end);
 				if (found || ri >= regions.size()) break;
 				pos = std::max(pos, regions[ri].base + regions[ri].len); ri++;
@@ -323,7 +408,7 @@ struct SlabEngine : Engine {
 		probe(P_unmaps);
 		logev(0x4003, base ? off((void *)base) : 0, len);
 		if (locks_held(me) > 0) violation("policy_called_with_lock", "Policy::unmap called by task %d while it holds %d pool lock(s)", me, locks_held(me));
-		if (!in_arena((void *)base)) violation("unmap_mismatch", "unmap(base %p, %zu): base is not an address map() returned", (void *)base, len);
+		if (!in_policy((void *)base)) violation("unmap_mismatch", "unmap(base %p, %zu): base is not an address map() returned", (void *)base, len);
 		uint64_t o = off((void *)base);
 		Region *r = find_region(o);
 		if (!r || r->base != o || r->len != len) {
@@ -343,11 +428,16 @@ struct SlabEngine : Engine {
 		c.unmaps++; c.unmapped.push_back(copy);
 		unmapped_hist.push_back(copy); if (unmapped_hist.size() > 64) unmapped_hist.erase(unmapped_hist.begin());
 		regions.erase(regions.begin() + (r - &regions[0]));
+		if (copy.base >= arena_size) { // a returned huge reservation is inaccessible again
+			uintptr_t a = (uintptr_t)(arena + copy.base) & ~(uintptr_t)4095, e = ((uintptr_t)(arena + copy.base) + copy.len + 4095) & ~(uintptr_t)4095;
+			mmap((void *)a, e - a, PROT_NONE, MAP_PRIVATE | MAP_ANONYMOUS | MAP_NORESERVE | MAP_FIXED, -1, 0);
+			tail_sub(copy.base, copy.base + copy.len);
+		}
 	}
 
 	void do_poison(int kind, void *p, size_t n) {
 		if (calibrating || !n) return;
-		if (!in_arena(p) || off(p) < policy_base) violation("pool_touches_unmapped_byte", "poison hook called on %p which is outside the policy's memory", p);
+		if (!in_policy(p)) violation("pool_touches_unmapped_byte", "poison hook called on %p which is outside the policy's memory", p);
 		uint64_t o = off(p);
 		Region *r = find_region(o);
 		if (!r || o + n > r->base + r->len) violation("pool_touches_unmapped_byte", "poison/unpoison of +0x%llx..+%zu which is not inside one mapped region", (unsigned long long)o, n);
@@ -356,12 +446,12 @@ struct SlabEngine : Engine {
 			// a shadow with 8-byte granules (KASAN): a granule is either invalid or valid up to some byte, so poisoning from
 			// the middle of a granule invalidates the whole granule, and both calls extend to the end of the last granule
 			uint64_t e = (o + n + 7) & ~7ull; if (e > r->base + r->len) e = r->base + r->len;
-			if (kind == 0) { uint64_t s = o & ~7ull; memset(pshadow + s, 1, e - s); }
-			else { memset(pshadow + o, 0, n); if (e > o + n) memset(pshadow + o + n, 1, e - (o + n)); }
+			if (kind == 0) { uint64_t s = o & ~7ull; ps_set(s, e - s, 1); }
+			else { ps_set(o, n, 0); if (e > o + n) ps_set(o + n, e - (o + n), 1); }
 			return;
 		}
-		if (kind == 0) { if (memchr(pshadow + o, 1, n)) probe(P_poison_redundant); memset(pshadow + o, 1, n); }
-		else { if (kind == 1 && memchr(pshadow + o, 0, n)) probe(P_unpoison_redundant); memset(pshadow + o, 0, n); }
+		if (kind == 0) { if (ps_any(o, n, 1)) probe(P_poison_redundant); ps_set(o, n, 1); }
+		else { if (kind == 1 && ps_any(o, n, 0)) probe(P_unpoison_redundant); ps_set(o, n, 0); }
 	}
 
 	bool fair_phase_retry = false, granule = false;
@@ -411,6 +501,18 @@ struct SlabEngine : Engine {
 		{ auto it = max_small_cache.find(pc); max_small = it != max_small_cache.end() && it->second ? it->second : class_size(pi.num_buckets - 1); }
 		if (!pshadow) { pshadow = (uint8_t *)mmap(nullptr, arena_size, PROT_READ | PROT_WRITE, MAP_PRIVATE | MAP_ANONYMOUS | MAP_NORESERVE, -1, 0); }
 		policy_base = (size_t)16 << 20; policy_top = arena_size - (1 << 20);
+		{
+			static int tail_state = 0; // 1 reserved, -1 the address range behind the arena is not free: huge requests fail like an exhausted arena
+			if (!tail_state) {
+				void *w = arena + arena_size;
+				void *r = mmap(w, TAIL_SIZE, PROT_NONE, MAP_PRIVATE | MAP_ANONYMOUS | MAP_NORESERVE | MAP_FIXED_NOREPLACE, -1, 0);
+				tail_state = r == w ? 1 : -1;
+				if (r != w && r != MAP_FAILED) munmap(r, TAIL_SIZE);
+			}
+			tail_ok = tail_state == 1;
+			if (tail_ok && tail_dirty) { mmap(arena + arena_size, TAIL_SIZE, PROT_NONE, MAP_PRIVATE | MAP_ANONYMOUS | MAP_NORESERVE | MAP_FIXED, -1, 0); tail_dirty = false; }
+			tail_top = arena_size + (1 << 20); tail_unpoisoned.clear();
+		}
 		regions.clear(); unmapped_hist.clear(); live_by_addr.clear(); map_sites.clear();
 		for (auto &b : blk) b = Block();
 		for (auto &c : cur) c = Cur();
@@ -475,7 +577,7 @@ struct SlabEngine : Engine {
 				Block &b = blk[it->second];
 				if (!b.req || b.inflight) return;
 				size_t head = b.req < 256 ? b.req : 256;
-				if (memchr(pshadow + it->first, 1, head) || (b.req > 256 && memchr(pshadow + it->first + b.req - 64, 1, 64)))
+				if (ps_any(it->first, head, 1) || (b.req > 256 && ps_any(it->first + b.req - 64, 64, 1)))
 					violation("not_unpoisoned", "after a pool call requested bytes of live block #%d (+0x%llx, %zu requested) are poisoned", it->second, (unsigned long long)it->first, b.req);
 			};
 			if (live_by_addr.size() <= 48) { for (auto it = live_by_addr.begin(); it != live_by_addr.end(); ++it) chk(it); }
@@ -491,7 +593,7 @@ struct SlabEngine : Engine {
 
 	void fill(Block &b) {
 		size_t n = b.req;
-		auto wr = [&](size_t from, size_t len) { user_write(b.ptr + from, len); for (size_t i = 0; i < len; i++) b.ptr[from + i] = (char)patbyte(b.pat, from + i); };
+		auto wr = [&](size_t from, size_t len) { ensure_rw(b.ptr + from, len); user_write(b.ptr + from, len); for (size_t i = 0; i < len; i++) b.ptr[from + i] = (char)patbyte(b.pat, from + i); };
 		if (n <= 192) { if (n) wr(0, n); }
 		else { wr(0, 64); wr(n / 2 - 16, 32); wr(n - 64, 64); }
 	}
@@ -517,7 +619,7 @@ struct SlabEngine : Engine {
 		Block &b = blk[h];
 		char *p = b.ptr;
 		size_t need = b.req ? b.req : 1;
-		if (!in_arena(p) || off(p) < policy_base) violation("outside_mapping", "%s(%zu) returned %p which is not in memory obtained from the policy", what, b.req, p);
+		if (!in_policy(p)) violation("outside_mapping", "%s(%zu) returned %p which is not in memory obtained from the policy", what, b.req, p);
 		uint64_t o = off(p);
 		if (!find_region(o)) violation("outside_mapping", "%s(%zu) returned +0x%llx which is not inside a region the pool currently has mapped", what, b.req, (unsigned long long)o);
 		size_t rep = api->get_size(pc, pool, p); // instrumented: other tasks may run here, look the region up afterwards
@@ -537,9 +639,10 @@ struct SlabEngine : Engine {
 			if (it->second != h && it->first + x.reported > o)
 				violation("overlap", "%s(%zu) returned [+0x%llx, +%zu) which overlaps live block #%d [+0x%llx, +%zu) of task %d", what, b.req, (unsigned long long)o, rep, it->second, (unsigned long long)it->first, x.reported, x.owner);
 		}
-		if (pi.poison && memchr(pshadow + o, 1, need))
+		if (pi.poison && ps_any(o, need, 1))
 			violation("not_unpoisoned", "%s(%zu) returned +0x%llx but not all requested bytes are unpoisoned", what, b.req, (unsigned long long)o);
 		live_by_addr[o] = h; last_touched = o;
+		if (b.req >= (1ull << 31)) probe(P_huge_blocks);
 		r->live++;
 		if (r->last_free_task && r->last_free_task != me && r->last_free_step >= call_begin[me]) probe(P_remote_free_into_head);
 		b.live = true; b.owner = me; b.alloc_task = me; b.offered = false; b.inflight = false;
@@ -590,7 +693,7 @@ struct SlabEngine : Engine {
 	void check_freed(int me, char *p, size_t reported, bool was_unmapped) {
 		if (!pi.poison || was_unmapped || !single) return;
 		uint64_t o = off(p);
-		if (reported > sizeof(void *) && memchr(pshadow + o + sizeof(void *), 0, reported - sizeof(void *)))
+		if (reported > sizeof(void *) && ps_any(o + sizeof(void *), reported - sizeof(void *), 0))
 			violation("not_repoisoned", "freed small block +0x%llx (%zu bytes): bytes beyond the allocator's link word are not poisoned again", (unsigned long long)o, reported);
 	}
 
@@ -602,7 +705,7 @@ struct SlabEngine : Engine {
 		Cur &c = cur[me];
 		int64_t after = (int64_t)api->used_pages(pc, pool), d = after - pages_before[me];
 		probe(P_pages_sampled);
-		if (after < 0 || after > (int64_t)(arena_size / pi.pagesize)) violation("page_counter", "numUsedPages() = %lld after %s: underflow or drift", (long long)after, what);
+		if (after < 0 || after > (int64_t)((arena_size + TAIL_SIZE) / pi.pagesize)) violation("page_counter", "numUsedPages() = %lld after %s: underflow or drift", (long long)after, what);
 		int kept = 0; Region *kr = nullptr;
 		for (uint64_t base : c.mapped_bases) { Region *r = find_region(base); if (r) { kept++; kr = r; } }
 		int64_t returned = 0; for (auto &u : c.unmapped) { bool own = false; for (uint64_t b : c.mapped_bases) if (b == u.base) own = true; if (!own) returned += u.pages; }
@@ -624,7 +727,7 @@ struct SlabEngine : Engine {
 			Block &b = blk[src_h];
 			if (!b.live) return;
 			if (api->get_size(pc, pool, b.ptr) != b.reported) violation("mapfail_side_effect", "realloc failed but the source block #%d now reports size %zu instead of %zu", src_h, api->get_size(pc, pool, b.ptr), b.reported);
-			if (pi.poison && b.req && memchr(pshadow + off(b.ptr), 1, b.req)) violation("mapfail_side_effect", "realloc failed but requested bytes of the source block #%d are now poisoned", src_h);
+			if (pi.poison && b.req && ps_any(off(b.ptr), b.req, 1)) violation("mapfail_side_effect", "realloc failed but requested bytes of the source block #%d are now poisoned", src_h);
 			Block saved = b; (void)saved;
 			// content
 			size_t w = written_size[src_h];
@@ -693,6 +796,9 @@ struct SlabEngine : Engine {
 
 	void do_realloc(int me, const Op &op, int h, size_t n) {
 		Block &b = blk[h];
+		// a block in reserved address space has no memory behind most of its bytes: a copying realloc may only copy what the owner wrote
+		if (in_tail(b.ptr) && n > 64) { n = 64; probe(P_huge_realloc_clamped); }
+		if (n >= (1ull << 31)) probe(P_huge_realloc_grow);
 		b.busy = true;
 		do_realloc_inner(me, op, h, n);
 		b.busy = false;
@@ -725,7 +831,7 @@ struct SlabEngine : Engine {
 			// (the block realloc returns is a new block as far as "the reported size does not change while the block lives" goes:
 			//  a pool that reports exact request sizes may legitimately report a different size after an in-place realloc)
 			if (rep != oldrep) { uint64_t c0 = cls_of(oldrep), c1 = cls_of(rep); if (c0) live_cls[c0]--; if (c1) { live_cls[c1]++; if (live_cls[c1] > peak_cls[c1]) peak_cls[c1] = live_cls[c1]; } b.reported = rep; }
-			if (pi.poison && memchr(pshadow + off(q), 1, n)) violation("not_unpoisoned", "after realloc(%zu) in place not all requested bytes are unpoisoned", n);
+			if (pi.poison && ps_any(off(q), n, 1)) violation("not_unpoisoned", "after realloc(%zu) in place not all requested bytes are unpoisoned", n);
 			b.req = n;
 			size_t keep = std::min(oldreq, n);
 			written_size[h] = oldw; verify_prefix(h, keep, oldpat, oldw);
@@ -907,7 +1013,7 @@ struct SlabEngine : Engine {
 		for (int h = 0; h < NH + NBULK; h++) if (blk[h].live) {
 			Block &b = blk[h];
 			b.owner = 0; b.offered = false;
-			if (pi.poison && b.req && memchr(pshadow + off(b.ptr), 1, b.req)) violation("not_unpoisoned", "at the end requested bytes of live block #%d are poisoned", h);
+			if (pi.poison && b.req && ps_any(off(b.ptr), b.req, 1)) violation("not_unpoisoned", "at the end requested bytes of live block #%d are poisoned", h);
 			verify(h, b.req, b.pat, "final verify");
 			if (api->get_size(pc, pool, b.ptr) != b.reported) violation("size_changed", "block #%d reported size %zu at allocation and %zu at the end", h, b.reported, api->get_size(pc, pool, b.ptr));
 		}
@@ -946,7 +1052,7 @@ struct SlabEngine : Engine {
 			if (known) { probe(P_multi_pages_checked); if (used != exp2) violation("page_counter", "after all blocks were freed numUsedPages() = %lld but the %zu slab(s) still mapped account for %lld page(s) (drift or a lost update)", (long long)used, regions.size(), (long long)exp2); }
 		}
 		if (all_counted && used != expect) violation("page_counter", "after all blocks were freed numUsedPages() = %lld but the regions still mapped had added %lld", (long long)used, (long long)expect);
-		if (used < 0 || used > (int64_t)(arena_size / pi.pagesize)) violation("page_counter", "numUsedPages() = %lld at the end: underflow or drift", (long long)used);
+		if (used < 0 || used > (int64_t)((arena_size + TAIL_SIZE) / pi.pagesize)) violation("page_counter", "numUsedPages() = %lld at the end: underflow or drift", (long long)used);
 		for (int t = 1; t < MAXT; t++) if (locks_held(t) != 0) violation("mapfail_lock_left", "task %d finished while holding %d pool lock(s)", t, locks_held(t));
 		// Reuse test (some runs): every slab still mapped is completely free now, so refilling each class up to the capacity of
 		// its slabs must not map anything — a slab the pool can no longer reach (orphaned in a refill race, lost on a failure
